@@ -86,7 +86,7 @@ theorem moduloInt_cases (x n : Int) (hn : 0 < n) (h0 : 0 ≤ x) (h1 : x ≤ n) :
     i.e. whether segment and TOF bin change sign) -/
 def StepClose (m v tp : Int) (r : Int × Int × Bool) : Prop :=
   (r.2.2 = true ∧ (r.1 = v ∨ r.1 = v + 1 ∨ r.1 + 1 = v) ∧ -1 ≤ r.2.1 - tp ∧ r.2.1 - tp ≤ 1) ∨
-  (r.2.2 = false ∧ ((v = m - 1 ∧ r.1 = 0) ∨ (v = 0 ∧ r.1 = m - 1)) ∧ -1 ≤ r.2.1 + tp ∧ r.2.1 + tp ≤ 1)
+  (r.2.2 = false ∧ ((v = m - 1 ∧ r.1 = 0) ∨ (v = 0 ∧ r.1 = m - 1)) ∧ r.2.1 + tp = 0)
 
 set_option maxHeartbeats 2000000 in -- (a case analysis with about 300 `omega` calls)
 /-- **nearest-detector round trip** (integer side of `ProjDataInfoCylindricalNoArcCorr::get_bin ∘ get_LOR`):
@@ -129,5 +129,54 @@ theorem nearest_detector_roundtrip (m v tp e1 e2 : Int) (hm : 0 < m) (hv : 0 ≤
   rcases hc with hc | hc | hc <;> (try (exfalso; omega)) <;>
   rcases hd with hd | hd | hd <;> (try (exfalso; omega)) <;>
   (split <;> split <;> simp only [Bool.false_eq_true, false_and, true_and, false_or] <;> omega)
+
+/-- both end points round to the same detector only at the extreme tangential positions `|tp| ≥ N/2 - 1` -/
+theorem coincident_only_at_extreme (m v tp e1 e2 : Int) (hm : 0 < m) (hv : 0 ≤ v ∧ v < m) (ht : -m < tp ∧ tp < m)
+    (he1 : e1 = 0 ∨ e1 = 1) (he2 : e2 = 0 ∨ e2 = 1)
+    (heq : moduloInt ((viewTangToDet (2 * m) v tp).1 + e1) (2 * m) = moduloInt ((viewTangToDet (2 * m) v tp).2 + e2) (2 * m)) :
+    tp ≤ -(m - 1) ∨ m - 1 ≤ tp := by
+  have hr := C01.viewTangToDet_range m v tp hm hv ht
+  rw [← viewTangToDet_eq_C01] at hr
+  revert heq
+  rw [viewTangToDet_eq m v tp hm] at hr ⊢
+  simp only [] at hr ⊢
+  have ha := C01.tmod_cases (v + tp / 2 + 2 * m) (2 * m) (by omega) (by omega)
+  have hb := C01.tmod_cases (v - (tp + 1) / 2 + m) (2 * m) (by omega) (by omega)
+  generalize (v + tp / 2 + 2 * m).tmod (2 * m) = a at *
+  generalize (v - (tp + 1) / 2 + m).tmod (2 * m) = b at *
+  have hA := moduloInt_cases (a + e1) (2 * m) (by omega) (by omega) (by omega)
+  have hB := moduloInt_cases (b + e2) (2 * m) (by omega) (by omega) (by omega)
+  generalize moduloInt (a + e1) (2 * m) = A at *
+  generalize moduloInt (b + e2) (2 * m) = B at *
+  intro heq
+  rcases he1 with rfl | rfl <;> rcases he2 with rfl | rfl <;>
+  rcases ha with ha | ha | ha <;> (try (exfalso; omega)) <;>
+  rcases hb with hb | hb | hb <;> (try (exfalso; omega)) <;>
+  rcases hA with hA | hA <;> (try (exfalso; omega)) <;>
+  rcases hB with hB | hB <;> (try (exfalso; omega)) <;> omega
+
+/-- **transaxial round trip inside the data range**: for a bin that is *not* at the first or last tangential position of
+    the data (`minT < tp < maxT`, range as built by STIR: `minT + maxT ∈ {-1, 0}`, inside `(-N/2, N/2)`), whatever the
+    rounding of the two end points does, they are different detectors, the bin found is at most one step away
+    (`StepClose`) **and its tangential position is inside the data range** — no miss. -/
+theorem roundtrip_inside_tangential_range (m v tp e1 e2 minT maxT : Int) (hm : 0 < m) (hv : 0 ≤ v ∧ v < m)
+    (he1 : e1 = 0 ∨ e1 = 1) (he2 : e2 = 0 ∨ e2 = 1) (hodd : tp % 2 = 1 ∨ (e1 = 0 ∧ e2 = 0))
+    (hmin : -m < minT) (hmax : maxT < m) (hsym : -1 ≤ minT + maxT ∧ minT + maxT ≤ 1) (hin : minT < tp ∧ tp < maxT) :
+    moduloInt ((viewTangToDet (2 * m) v tp).1 + e1) (2 * m) ≠ moduloInt ((viewTangToDet (2 * m) v tp).2 + e2) (2 * m) ∧
+    StepClose m v tp (detToViewTang (2 * m) (moduloInt ((viewTangToDet (2 * m) v tp).1 + e1) (2 * m))
+      (moduloInt ((viewTangToDet (2 * m) v tp).2 + e2) (2 * m))) ∧
+    minT ≤ (detToViewTang (2 * m) (moduloInt ((viewTangToDet (2 * m) v tp).1 + e1) (2 * m))
+      (moduloInt ((viewTangToDet (2 * m) v tp).2 + e2) (2 * m))).2.1 ∧
+    (detToViewTang (2 * m) (moduloInt ((viewTangToDet (2 * m) v tp).1 + e1) (2 * m))
+      (moduloInt ((viewTangToDet (2 * m) v tp).2 + e2) (2 * m))).2.1 ≤ maxT := by
+  have ht : -m < tp ∧ tp < m := by omega
+  have hne : moduloInt ((viewTangToDet (2 * m) v tp).1 + e1) (2 * m) ≠ moduloInt ((viewTangToDet (2 * m) v tp).2 + e2) (2 * m) := by
+    intro heq
+    have := coincident_only_at_extreme m v tp e1 e2 hm hv ht he1 he2 heq
+    omega
+  have hs := nearest_detector_roundtrip m v tp e1 e2 hm hv ht he1 he2 hodd hne
+  refine ⟨hne, hs, ?_, ?_⟩ <;>
+  · unfold StepClose at hs
+    rcases hs with ⟨_, _, h1, h2⟩ | ⟨_, _, h1⟩ <;> omega
 
 end StirVerif.C12
